@@ -647,10 +647,23 @@ impl<R: Read + Seek> LogIterator<R> {
         }
         self.buffer_idx = 0;
         self.buffer.clear();
+        match self.next_batch() {
+            Ok(true) => self.next_from_buffer(),
+            Ok(false) => Ok(None),
+            Err(err) => {
+                // Never hand out part of a batch that failed to assemble or verify.
+                self.buffer.clear();
+                Err(err)
+            }
+        }
+    }
+
+    // Read the frame(s) of the next batch into the buffer.  False means the log ended cleanly.
+    fn next_batch(&mut self) -> Result<bool, SError> {
         let header = match self.next_frame()? {
             Some(header) => header,
             None => {
-                return Ok(None);
+                return Ok(false);
             }
         };
         if header.discriminant == HEADER_WHOLE {
@@ -677,7 +690,7 @@ impl<R: Read + Seek> LogIterator<R> {
                 self.input.stream_position().unwrap_or(0),
             ));
         }
-        self.next_from_buffer()
+        Ok(true)
     }
 
     fn next_from_buffer(&mut self) -> Result<Option<KeyValueRef<'_>>, SError> {
